@@ -1,6 +1,7 @@
 // C16 correspondence harness: resolution of source imports.
 //
-//   impl  = the real effectivePkg / previousRoot / pkgDir of /repo (hooks of interp/verif_c16.go, -tags verif)
+//   impl  = the real effectivePkg / previousRoot / pkgDir / goPkgDir / mainRoot / relativePath of /repo (hooks of
+//           interp/verif_c16.go and verif_c16b.go, -tags verif)
 //           and whole programs run through EvalPath / Eval on generated trees (MapFS and disk)
 //   model = Lean transcription of the three functions and of importSrc's bookkeeping (y=),
 //           Lean Go-spec model: nearest enclosing vendor directory, else GOPATH/src (g=)
@@ -51,6 +52,7 @@ type harness struct {
 	drv      *common.Driver
 	scratch  string // directory for disk trees
 	nTrees   int
+	hung     int // structural calls of the real code that did not return
 	findings []common.Finding
 }
 
@@ -127,6 +129,23 @@ func implStruct(v *view, i *interp.Interpreter, c caseT) (out string) {
 	}
 }
 
+// implStructTimed: a hang of the real code (a walk that never reaches its end) is an outcome, not the end of
+// the run; the goroutine is abandoned.
+func (h *harness) implStructTimed(v *view, i *interp.Interpreter, c caseT) string {
+	if h.hung >= 3 {
+		return "timeout" // the run is lost anyway: report quickly
+	}
+	ch := make(chan string, 1)
+	go func() { ch <- implStruct(v, i, c) }()
+	select {
+	case s := <-ch:
+		return s
+	case <-time.After(10 * time.Second):
+		h.hung++
+		return "timeout"
+	}
+}
+
 // structGroup evaluates the structural cases of one tree on one of the two file systems.
 func (h *harness) structGroup(t *Tree, pkgs []*pkgInfo, cases []caseT, disk bool) {
 	run := h.run
@@ -166,7 +185,7 @@ func (h *harness) structGroup(t *Tree, pkgs []*pkgInfo, cases []caseT, disk bool
 			run.Errorf("driver answered %q to %q", answers[k], lines[k])
 			continue
 		}
-		im := implStruct(v, i, c)
+		im := h.implStructTimed(v, i, c)
 		key := lines[k]
 		if disk {
 			key = strings.ReplaceAll(key, top, "$T")
@@ -269,7 +288,7 @@ func main() {
 	}
 	debug.SetMaxStack(256 << 20)
 	run := common.NewRun("C16")
-	run.Res.Rule = "cases = (file system, GOPATH, root, import path) for pkgDir, (file system, rootPath, root) for previousRoot, (root, path) for effectivePkg, derived from seeded random trees (packages at depth 1..4 below GOPATH/src, vendor directories below packages, their ancestors and vendored packages, the same import path in several places), each tree both as fstest.MapFS and on disk; plus whole programs (diamonds, cycles, relative imports, markers naming the directory) through Eval/EvalPath; non-trivial = pkgDir/previousRoot case, effectivePkg case with a multi-element argument, or program with at least two source packages; distinct = distinct protocol line (temporary directory normalised)"
+	run.Res.Rule = "cases = (file system, GOPATH, root, import path) for goPkgDir (what importSrc resolves with; compared with the Go rule) and pkgDir, (file system, rootPath, root) for previousRoot, (root, path) for effectivePkg, (input file, root) for mainRoot, (base, path) for relativePath, derived from seeded random trees (packages at depth 1..4 below GOPATH/src, vendor directories below packages, their ancestors, GOPATH/src itself and vendored packages, the same import path in several places, shared elements, directories without Go files, regular files named vendor or sitting at candidate paths), each tree both as fstest.MapFS and on disk; plus whole programs (diamonds, cycles, relative imports reached by several paths, vendor elements, unresolvable imports, a main package with its own vendor directory, markers naming the directory) through Eval/EvalPath under five entry modes; non-trivial = structural case other than a single-element effectivePkg case, or program with at least two source packages; distinct = distinct protocol line (temporary directory normalised)"
 	defer run.Finish()
 	drv, err := common.StartDriver("C16")
 	if err != nil {
